@@ -11,6 +11,7 @@ import (
 	"os"
 	"sort"
 	"strings"
+	"sync"
 
 	"verifharness/e2e"
 	"verifharness/lib"
@@ -36,12 +37,39 @@ func main() {
 			return
 		}
 
-		nA := c.Scale(10, 400)
+		nA := c.Scale(8, 400)
 		steps := c.Scale(4, 7)
-		all := e2e.EngRunHistories(c.Rng, base+"/a", nA, 8, func(i int) e2e.EngOpts {
-			return e2e.EngOpts{MaxPkgs: 2, MaxTargets: 6, Steps: steps, CleanRef: true, Subsets: i%3 == 1, Failures: i%4 == 3,
-				PWipe: 8, PRevert: 15, PNoop: 5, DirHeavy: i%2 == 0}
-		})
+		nB := c.Scale(2, 100)
+		// the three parts run concurrently, each on its own generator forked in a fixed order
+		rA, rB := c.Rng.Fork(), c.Rng.Fork()
+		var wg sync.WaitGroup
+		var all [][]e2e.EngStep
+		var allB [][]e2e.Step
+		wits := e2e.EngWitnesses()
+		witH := make([][]e2e.EngStep, len(wits))
+		wg.Add(2 + len(wits))
+		go func() {
+			defer wg.Done()
+			all = e2e.EngRunHistories(rA, base+"/a", nA, 10, func(i int) e2e.EngOpts {
+				return e2e.EngOpts{MaxPkgs: 2, MaxTargets: 6, Steps: steps, CleanRef: true, Subsets: i%3 == 1, Failures: i%4 == 3,
+					PWipe: 8, PRevert: 15, PNoop: 5, DirHeavy: i%2 == 0}
+			})
+		}()
+		go func() {
+			defer wg.Done()
+			// Part B: the lead's first harness, full generator (output_dirs included), oracle only
+			allB = e2e.RunHistories(rB, base+"/b", nB, 6, e2e.HistOpts{Gen: e2e.GenOpts{MaxPkgs: 3, MaxTargets: 7, DirOutputs: true}, Steps: steps, CleanRef: true, RmPlzOut: true, Revert: true})
+		}()
+		for wi := range wits {
+			go func(wi int) {
+				defer wg.Done()
+				dir := fmt.Sprintf("%s/w%d", base, wi)
+				os.MkdirAll(dir, 0o755)
+				witH[wi] = e2e.EngRunSpecs(dir, wits[wi].Specs, wits[wi].Order, e2e.EngOpts{CleanRef: true}, nil)
+			}(wi)
+		}
+		wg.Wait()
+
 		for i, h := range all {
 			changed := 0
 			for k := range h {
@@ -57,10 +85,8 @@ func main() {
 		}
 
 		// fixed witnesses of the directory-hash defect
-		for wi, w := range e2e.EngWitnesses() {
-			dir := fmt.Sprintf("%s/w%d", base, wi)
-			os.MkdirAll(dir, 0o755)
-			h := e2e.EngRunSpecs(dir, w.Specs, w.Order, e2e.EngOpts{CleanRef: true}, nil)
+		for wi, w := range wits {
+			h := witH[wi]
 			for k := range h {
 				c.Hist("edit", "witness-"+w.Name)
 				oracle(c, 1000+wi, h, k)
@@ -68,9 +94,6 @@ func main() {
 			c.Case(e2e.EngCaseTerm(h), histJSON(1000+wi, h, len(h)-1), e2e.EngKey(h), true)
 		}
 
-		// Part B: the lead's first harness, full generator (output_dirs included), oracle only
-		nB := c.Scale(2, 100)
-		allB := e2e.RunHistories(c.Rng, base+"/b", nB, 6, e2e.HistOpts{Gen: e2e.GenOpts{MaxPkgs: 3, MaxTargets: 7, DirOutputs: true}, Steps: steps, CleanRef: true, RmPlzOut: true, Revert: true})
 		for i, hist := range allB {
 			for _, st := range hist {
 				c.Hist("edit-b", st.Edit.Kind)
